@@ -9,6 +9,7 @@ import SV.TxCache.ReachableProofs
 import SV.GenProofs.TxThresholds
 import SV.GenProofs.TxLists
 import SV.TxCache.GoList
+import SV.GenProofs.TxSenderBytes
 namespace SV.Props.C04
 open SV SV.TxCache
 
@@ -118,5 +119,19 @@ theorem go_list_lower_nonce_removal_is_the_models (k : Nat) {s : SenderList} (h 
 open GoList in
 /-- what `GetTransactionsPoolForSender` hands out is the list front to back -/
 theorem go_list_getTxs_is_the_list (s : SenderList) : s.getTxs = s.items.toList := getTxs_eq s
+
+open GoList in
+/-- the tie by translation for the per-sender byte counter: the two statements of the CURRENT source that change
+    `totalBytes` are the updates of the transcribed list code — a successful insertion adds the transaction's size, a rejected
+    one (duplicate) changes nothing, every removal subtracts the size of the removed transaction -/
+theorem source_sender_byte_counter_updates_are_the_transcriptions :
+    (∀ (s s' : SenderList) (t : Tx), s.insert t = (s', true) →
+        s'.totalBytes = Gen.senderBytesAfterAdd (listForSender_totalBytes := s.totalBytes) (tx_Size := (t.size : Int))) ∧
+    (∀ (s s' : SenderList) (t : Tx), s.insert t = (s', false) → s'.totalBytes = s.totalBytes) ∧
+    (∀ b sz : Int, b - sz = Gen.senderBytesAfterRemove (listForSender_totalBytes := b) (tx_Size := sz)) ∧
+    Gen.senderBytesAfterAdd_leaves = ["listForSender.totalBytes : Int", "tx.Size : Int"] ∧
+    Gen.senderBytesAfterRemove_leaves = ["listForSender.totalBytes : Int", "tx.Size : Int"] :=
+  ⟨GenProofs.senderBytes_insert, GenProofs.senderBytes_insert_rejected, GenProofs.senderBytes_remove,
+   GenProofs.senderBytes_leaves.1, GenProofs.senderBytes_leaves.2⟩
 
 end SV.Props.C04
